@@ -41,6 +41,8 @@ THEOREMS = [
     "JanetModel.Props.C08.no_abandon_no_stale_no_drop",
     "JanetModel.Props.C08.per_sender_order_counterexample",
     "JanetModel.Props.C08.per_thread_order_counterexample",
+    "JanetModel.Props.C08.pipe_fifo",
+    "JanetModel.Props.C08.runq_fifo",
     "JanetModel.Props.C08.exactly_once_resumed",
     "JanetModel.Props.C08.exactly_once_resumed_clean",
     "JanetModel.Props.C08.scheduled_then_abandoned_counterexample",
